@@ -472,6 +472,11 @@ fn all_cases(ctx: &Ctx) -> Vec<Case> {
     for w in ["build", "tosource", "bin", "derive"] {
         cases.push(Case { input: front_case(w, witnesses()[0].1), tags: vec!["kind:front".into(), format!("front:{}", w), "gen:panic".into()] });
     }
+    // a definition the generator handles but rustc rejects: the proc macro must fail in rustc, the other
+    // front-ends still emit the text
+    for w in ["derive", "build", "bin"] {
+        cases.push(Case { input: front_case(w, witnesses()[4].1), tags: vec!["kind:front".into(), format!("front:{}", w), "gen:rustc-fail".into()] });
+    }
     // rejected texts
     let base: Vec<String> = if texts.is_empty() { repo_idls() } else { texts.clone() };
     let mut nrej = 0;
@@ -671,9 +676,15 @@ fn prepare(cases: &[Sx]) -> HashMap<String, String> {
     for l in &lines {
         h = h.wrapping_mul(31).wrapping_add(build::fnv(l.as_bytes()));
     }
-    for f in ["/repo/varlink_generator/src/lib.rs", "/repo/varlink/src/lib.rs", "/repo/varlink_derive/src/lib.rs", "/repo/varlink_parser/src/lib.rs", "/repo/varlink_parser/src/varlink_grammar.rs", "/repo/varlink/src/client.rs", "/repo/varlink/src/server.rs"] {
-        h = h.wrapping_mul(31).wrapping_add(build::fnv(&std::fs::read(f).unwrap_or_default()));
+    // every source file of the crates under test (a change there invalidates cached observations)
+    for d in ["/repo/varlink/src", "/repo/varlink_generator/src", "/repo/varlink_generator/src/bin", "/repo/varlink_parser/src", "/repo/varlink_derive/src"] {
+        let mut files: Vec<std::path::PathBuf> = std::fs::read_dir(d).map(|rd| rd.flatten().map(|e| e.path()).filter(|p| p.is_file()).collect()).unwrap_or_default();
+        files.sort();
+        for f in files {
+            h = h.wrapping_mul(31).wrapping_add(build::fnv(&std::fs::read(&f).unwrap_or_default()));
+        }
     }
+    h = h.wrapping_mul(31).wrapping_add(build::fnv(&std::fs::read("/repo/Cargo.lock").unwrap_or_default()));
     h = h.wrapping_mul(31).wrapping_add(build::fnv(&std::fs::read(std::env::current_exe().unwrap()).unwrap_or_default()));
     let cache = build::work_dir().join("results").join(format!("{:016x}.txt", h));
     if std::env::var("VERIF_GEN_NOCACHE").is_err() {
